@@ -256,6 +256,8 @@ func RunC15(rep *explore.Report, tier string) {
 		grid = small
 	}
 	RunGrid(rep, grid, Visitors["C15"], GridOpts{Property: "C15", MaxState: 3000000})
+	// the same oracle on genuinely uninterrupted objects (pure replay, no state cloning)
+	RunGrid(rep, ReplayGrid(tier), Visitors["C15"], GridOpts{Property: "C15", MaxState: 300000, Mode: "replay"})
 	rep.Set("distinct_nontrivial", rep.Get("views_checked"))
 	rep.Set("evaluations", rep.Get("views_checked"))
 	rep.Assumption("card tokens are unique strings, so a string equal to a hidden card anywhere in a view is a leak")
